@@ -273,3 +273,26 @@ PROPERTIES["C08"] = dict(
         dict(pkg="inference", files=INFER_FILES, entry="Harness_C08_Rounds", args=dict(sample_every=97)),
     ],
 )
+
+K3_PKGS = ["annotation", "assertion/global", "assertion/structfield", "assertion/affiliation", "assertion/function", "assertion/function/functioncontracts",
+           "assertion/function/structfieldeffects", "assertion/anonymousfunc", "assertion", "accumulation"]
+for _d in K3_PKGS:
+    _n = _d.replace("/", "_")
+    PROPERTIES["C12"]["runs"].append(dict(pkg=_d, files=["k3/%s/zz_verif_k3.go" % _n, "k3/%s/zz_verif_k3_registry.go" % _n, "config::config/zz_verif_export.go"],
+                                          entry="Harness_C12_K3", name="_" + _n, args=dict(sample_every=1)))
+PROPERTIES["C12"]["bounds"]["quick"] += "; K3: each of the 10 analyzers' run functions entered with one symbolic include prefix, an optional symbolic exclude prefix (<=5 chars) and a symbolic out-of-scope path (<=6 chars)"
+PROPERTIES["C12"]["bounds"]["thorough"] += "; K3 as quick"
+
+PROPERTIES["C07"] = dict(
+    explanation="symx executes analysishelper.WrapRun[T] (generic instantiation, deferred recover) and accumulation.run with its deferred recover from SSA under seven failure behaviours of the wrapped "
+                "function (normal, error, panic(string), panic(error), nil-map write, failed type assertion, nil dereference) and four faults of the top-level analyzer; analyzer name and panic/error text are symbolic strings, "
+                "so the claims about the produced messages (prefix, wrapped error, panic value) are solver-decided string queries.",
+    bounds=dict(quick="7 behaviours x 3 pass shapes for WrapRun; 4 faults for accumulation.run; symbolic strings <=5 chars", thorough="same"),
+    outside=["the universal part of the statement - termination and absence of internal errors FOR EVERY PACKAGE - needs the whole analysis on symbolic programs (C01's core): not decided",
+             "the fixpoint round bound (checkCFGFixedPointRuntime) and _maxFuncSizeInCFGBlocks", "goroutine panics inside function.run (C16)"],
+    assumptions=COMMON_ASSUMPTIONS + ["runtime/debug.Stack returns a constant under symx", "every kernel harness of the other properties additionally treats any internal panic on a feasible path as a violation"],
+    runs=[
+        dict(pkg="util/analysishelper", files=["analysishelper/zz_verif_c07.go"], entry="Harness_C07_WrapRun", args=dict(sample_every=1)),
+        dict(pkg="accumulation", files=["accumulation/zz_verif_c07.go", "config::config/zz_verif_export.go"], entry="Harness_C07_Accumulation", args=dict(sample_every=1)),
+    ],
+)
